@@ -34,7 +34,12 @@ def rand_decls(rng, n):
 
 def rand_frames(rng, n):
     sels = ['from', 'to'] + ['%d%%' % k for k in (0, 10, 25, 50, 75, 100)] + ['12.5%', '33.3%']
-    return [(rng.choice(sels), rand_decls(rng, rng.randrange(1, 4))) for _ in range(n)]
+
+    def one():
+        if rng.random() < 0.25:         # a selector list: `0%, 50% {...}`
+            return ','.join(rng.sample(sels, rng.randrange(2, 4)))
+        return rng.choice(sels)
+    return [(one(), rand_decls(rng, rng.randrange(1, 4))) for _ in range(n)]
 
 
 def rand_item(rng, depth=0):
@@ -64,7 +69,7 @@ def render(items, rng, ind=0):
         elif it[0] == 'kf':
             s += '%s%s %s%s{\n' % (pad, it[1], it[2], sp())
             for sel, ds in it[3]:
-                s += '%s  %s%s{ %s }\n' % (pad, sel, sp(), ' '.join('%s: %s;' % (p, v) for p, v, _e in ds))
+                s += '%s  %s%s{ %s }\n' % (pad, sel.replace(',', rng.choice([', ', ',', ' , '])), sp(), ' '.join('%s: %s;' % (p, v) for p, v, _e in ds))
             s += pad + '}\n'
         elif it[0] in ('db', 'rule'):
             s += '%s%s%s{ %s }\n' % (pad, it[1], sp() if it[0] == 'db' else ' ', ' '.join('%s: %s;' % (p, v) for p, v, _e in it[2]))
@@ -96,7 +101,7 @@ def expected_tree(items):
         if it[0] == 'stmt':
             out.append(('stmt', re.sub(r'\s+', ' ', it[1].rstrip(';')).replace("'", "'")))
         elif it[0] == 'kf':
-            out.append(('at', '%s %s' % (it[1], it[2]), [('rule', [sel], [(p, canon.norm_value(e), False) for p, _v, e in ds]) for sel, ds in it[3]]))
+            out.append(('at', '%s %s' % (it[1], it[2]), [('rule', sel.split(','), [(p, canon.norm_value(e), False) for p, _v, e in ds]) for sel, ds in it[3]]))
         elif it[0] == 'db':
             out.append(('atdecl', it[1], [(p, canon.norm_value(e), False) for p, _v, e in it[2]]))
         elif it[0] == 'rule':
